@@ -291,4 +291,31 @@ theorem collapse_neg_iff (idx : List Nat) (n : Nat) (hasc : Asc idx) (i : Nat) (
 
 example : (collapseMap [1, 3] 6).length = 6 := by decide
 
+/-- **the collapse map is strictly increasing on survivors** (hence injective there): two positions that are not
+listed keep their relative order and never collide after `GenerateIndexCollapseMap`. -/
+theorem collapse_strict_mono (idx : List Nat) (n : Nat) (hasc : Asc idx) (i j : Nat) (hij : i < j) (hj : j < n)
+    (hi : i ∉ idx) (hjn : j ∉ idx) :
+    ∃ a b : Nat, (collapseMap idx n)[i]? = some (a : Int) ∧ (collapseMap idx n)[j]? = some (b : Int) ∧ a < b := by
+  rw [collapse_eq_spec idx n hasc]
+  unfold collapseSpec
+  rw [List.getElem?_map, List.getElem?_map, List.getElem?_range hj, List.getElem?_range (by omega : i < n)]
+  refine ⟨i - (idx.filter (· < i)).length, j - (idx.filter (· < j)).length, by simp [hi], by simp [hjn], ?_⟩
+  have h0 := asc_count_window idx hasc 0 i
+  have h0' : (idx.filter (· < i)).length ≤ i := by simpa using h0
+  have hs := count_split idx i j (by omega)
+  have hw : idx.filter (fun x => decide (i ≤ x) && decide (x < j)) = idx.filter (fun x => decide (i + 1 ≤ x) && decide (x < j)) := by
+    apply List.filter_congr
+    intro y hy
+    have : y ≠ i := fun h => hi (h ▸ hy)
+    have h1 : decide (i ≤ y) = decide (i + 1 ≤ y) := by
+      by_cases h : i ≤ y
+      · have : i + 1 ≤ y := by omega
+        simp [h, this]
+      · have : ¬ (i + 1 ≤ y) := by omega
+        simp [h, this]
+    rw [h1]
+  have hb := asc_count_window idx hasc (i + 1) j
+  rw [hw] at hs
+  omega
+
 end Nifly.Util
